@@ -25,6 +25,7 @@ package main
 import (
 	"bytes"
 	"context"
+	"crypto/sha256"
 	"encoding/binary"
 	"encoding/hex"
 	"encoding/json"
@@ -201,6 +202,15 @@ type reqSpec struct {
 	Status  map[string]string `json:"status"`
 }
 
+// bufText: payloads travel to the model (which only echoes them) in full up to 4 KiB, as a digest beyond
+func bufText(b []byte) string {
+	if len(b) > 4096 {
+		d := sha256.Sum256(b)
+		return hex.EncodeToString(d[:]) + fmt.Sprintf("%08x", len(b))
+	}
+	return hx(b)
+}
+
 func hx(b []byte) string {
 	if len(b) == 0 {
 		return "-"
@@ -300,11 +310,11 @@ func (p *packet) text() string {
 	case "rsp":
 		r := p.rsp
 		return fmt.Sprintf("rsp %d %d %d %d %d %s %s %s %s", r.IVersion, r.CPacketType, r.IRequestId, r.IMessageType, r.IRet,
-			hx(u8(r.SBuffer)), mapText(r.Status), hx([]byte(r.SResultDesc)), mapText(r.Context))
+			bufText(u8(r.SBuffer)), mapText(r.Status), hx([]byte(r.SResultDesc)), mapText(r.Context))
 	case "req":
 		r := p.req
 		return fmt.Sprintf("req %d %d %d %d %s %s %s %d %s %s", r.IVersion, r.CPacketType, r.IMessageType, r.IRequestId,
-			hx([]byte(r.SServantName)), hx([]byte(r.SFuncName)), hx(u8(r.SBuffer)), r.ITimeout, mapText(r.Context), mapText(r.Status))
+			hx([]byte(r.SServantName)), hx([]byte(r.SFuncName)), bufText(u8(r.SBuffer)), r.ITimeout, mapText(r.Context), mapText(r.Status))
 	}
 	return "bad " + hx(p.raw)
 }
@@ -448,7 +458,7 @@ func (e *endpoint) readTCP() {
 			return
 		}
 		l := int(binary.BigEndian.Uint32(hdr))
-		if l < 4 || l > 1<<20 {
+		if l < 4 || l > 32<<20 {
 			e.add(packet{kind: "bad", raw: hdr})
 			return
 		}
@@ -482,6 +492,13 @@ func (e *endpoint) readUDP() {
 	}
 }
 
+// broken: the read side ended (the server closed the connection): nothing more will arrive
+func (e *endpoint) broken() bool {
+	e.mu.Lock()
+	defer e.mu.Unlock()
+	return e.readErr != nil
+}
+
 func (e *endpoint) snapshot() []packet {
 	e.mu.Lock()
 	defer e.mu.Unlock()
@@ -505,8 +522,18 @@ type caseOp struct {
 	Pool      int     `json:"pool"`
 	HT        int     `json:"handletimeout"`
 	Transport string  `json:"transport"`
-	Scenario  string  `json:"scenario"` // plain | victim (behind blockers, own timeout elapses) | overlong
+	Scenario  string  `json:"scenario"` // plain | victim (behind blockers, own timeout elapses) | overlong | edge (iTimeout 1 ms: may or may not expire)
 	Req       reqSpec `json:"req"`
+	// Seg: the request travelled on a connection whose byte stream was written in segments (segGroup);
+	// the connection is regenerated from these numbers on replay
+	Seg *segRef `json:"segmented_connection,omitempty"`
+}
+
+type segRef struct {
+	Seed int64  `json:"seed"`
+	Tier string `json:"tier"`
+	Conn int    `json:"conn"`
+	Kind string `json:"kind"`
 }
 
 type tcase struct {
@@ -517,6 +544,19 @@ type tcase struct {
 }
 
 func (t *tcase) twoWay() bool { return t.op.Req.PType == 0 }
+
+// rop: the case as it is reported (a body that the replay regenerates anyway is not copied into
+// every report)
+func (t *tcase) rop() caseOp {
+	op := t.op
+	if op.Seg != nil && len(op.Req.Buf) > 8192 {
+		op.Req.Buf = fmt.Sprintf("(%d bytes, regenerated on replay)", len(op.Req.Buf)/2)
+	}
+	return op
+}
+
+// expiring: the request's own timeout is meant to (victim) or may (edge) elapse before it is dequeued
+func (t *tcase) expiring() bool { return t.op.Scenario == "victim" || t.op.Scenario == "edge" }
 
 // path names the code path the request is meant to take (oracle locus).
 func (t *tcase) path() string {
@@ -546,7 +586,7 @@ func (t *tcase) modelLine(sub int, dur int) string {
 		udp = 1
 	}
 	return fmt.Sprintf("serve tree %d %d %d %d %d %d %d %s %s %s %d %s %s %d %s %d %s %d",
-		t.op.Pool, t.op.HT, udp, r.Ver, r.PType, r.MType, r.ID, hx([]byte(r.Servant)), hx([]byte(r.Func)), r.Buf, r.Timeout,
+		t.op.Pool, t.op.HT, udp, r.Ver, r.PType, r.MType, r.ID, hx([]byte(r.Servant)), hx([]byte(r.Func)), bufText(unhx(r.Buf)), r.Timeout,
 		mapText(r.Ctx), mapText(r.Status), sub, kind, code, hx([]byte(msg)), dur)
 }
 
@@ -653,7 +693,15 @@ func (g *gen) timeout() int32 {
 }
 
 // group: requests per endpoint, sent in order, each endpoint pipelined.
+// segPlan: how the byte stream of one TCP endpoint is written: a segment ends at every cut (offset
+// into the stream), followed by a pause, so that the server reads the segments separately
+type segPlan struct {
+	cuts   []int
+	pauses []int // ms, parallel to cuts
+}
+
 type group struct {
+	segs  map[int]*segPlan
 	name  string
 	eps   []string // transport of endpoint i
 	cases []*tcase // in send order per endpoint (ep index inside)
@@ -745,6 +793,191 @@ func mainGroup(g *gen, pool, ht int, n int, longRounds int) *group {
 }
 
 // ---------------------------------------------------------------------------------------------
+// segmented connections: the same requests, but the TCP byte stream is cut where a receive loop can
+// go wrong — around every request boundary, at the multiples of the server's 4096-byte read buffer,
+// at random places — and the segments are written with pauses so that the server reads them one by one.
+// Self-contained (own generator, own id range) so that one connection can be regenerated for a replay.
+
+const segIDBase = 40000000
+
+func segGen(seed int64, pool, ht int) *gen {
+	g := newGen(rand.New(rand.NewSource(seed*7368787 + int64(pool)*104729 + int64(ht)*31 + 17)))
+	g.nextID = segIDBase
+	g.special = []int32{math.MinInt32 + 1, math.MaxInt32 - 1, -2, 2, math.MinInt32 + 2, math.MaxInt32 - 2}
+	return g
+}
+
+func (g *gen) pause() int {
+	if g.rng.Intn(8) == 0 {
+		return 5 + g.rng.Intn(46)
+	}
+	return 5 + g.rng.Intn(4)
+}
+
+// smallReq: a fast request for a pipelined connection (edge = iTimeout 1 ms now and then, only without
+// a handle timeout: such a request may or may not expire before it is dequeued, both are admissible)
+func (g *gen) smallReq(gr *group, ep, pool, ht int, ref *segRef) *tcase {
+	fn := g.fastFunc()
+	scenario, timeout := "plain", g.timeout()
+	if ht == 0 && g.rng.Intn(7) == 0 && !strings.HasPrefix(fn, "sleep:") {
+		scenario, timeout = "edge", 1
+	}
+	t := gr.add(ep, pool, ht, scenario, g.request(fn, g.ptype(), timeout))
+	t.op.Seg = ref
+	return t
+}
+
+func streamLen(gr *group, ep int) (total int, ends []int) {
+	for _, t := range gr.cases {
+		if t.ep == ep {
+			total += len(t.op.Req.encode())
+			ends = append(ends, total)
+		}
+	}
+	return
+}
+
+// padTo grows the buffer of r until its encoding is exactly want bytes long (false: not reachable)
+func padTo(r *reqSpec, want int) bool {
+	for try := 0; try < 8; try++ {
+		have := len(r.encode())
+		if have == want {
+			return true
+		}
+		n := len(unhx(r.Buf)) + want - have
+		if n < 0 {
+			return false
+		}
+		r.Buf = hx(bytes.Repeat([]byte{0x5a}, n))
+	}
+	return len(r.encode()) == want
+}
+
+func segGroup(seed int64, tier string, pool, ht int) *group {
+	g := segGen(seed, pool, ht)
+	gr := &group{name: "segmented", segs: map[int]*segPlan{}}
+	thorough := tier == "thorough"
+	nSmall := 22
+	if thorough {
+		nSmall = 300
+	}
+	conn := 0
+	newConn := func(kind string) (int, *segRef) {
+		ep := gr.addEp("tcp")
+		ref := &segRef{Seed: seed, Tier: tier, Conn: conn, Kind: kind}
+		conn++
+		return ep, ref
+	}
+	fence := func(ep int, ref *segRef) {
+		t := gr.add(ep, pool, ht, "plain", g.request("ok", 0, 0))
+		t.op.Seg = ref
+	}
+	// (a) one cut per request boundary, the offsets -3..+3 in turn (two phases so that every offset meets
+	// every position parity), short pauses
+	for phase := 0; phase < 2; phase++ {
+		ep, ref := newConn(fmt.Sprintf("boundary-offsets/%d", phase))
+		for i := 0; i < nSmall; i++ {
+			g.smallReq(gr, ep, pool, ht, ref)
+		}
+		fence(ep, ref)
+		_, ends := streamLen(gr, ep)
+		plan := &segPlan{}
+		for j, b := range ends[:len(ends)-1] {
+			off := []int{1, 2, 3, -1, -2, -3, 0}[(j+3*phase)%7]
+			plan.cuts = append(plan.cuts, b+off)
+			plan.pauses = append(plan.pauses, g.pause())
+		}
+		gr.segs[ep] = plan
+	}
+	// (b) random cuts
+	{
+		ep, ref := newConn("random-cuts")
+		for i := 0; i < nSmall; i++ {
+			g.smallReq(gr, ep, pool, ht, ref)
+		}
+		fence(ep, ref)
+		total, _ := streamLen(gr, ep)
+		plan := &segPlan{}
+		pos := 0
+		for {
+			pos += 1 + g.rng.Intn(2*total/(nSmall+1)+2)
+			if pos >= total {
+				break
+			}
+			plan.cuts = append(plan.cuts, pos)
+			plan.pauses = append(plan.pauses, g.pause())
+		}
+		gr.segs[ep] = plan
+	}
+	// (c) request boundaries 1, 2, 3 bytes in front of (and on, and behind) the multiples of 4096 of the
+	// stream: once written in one piece (the server's 4096-byte reads end there by themselves when the
+	// data is already waiting), once cut at every multiple
+	for _, cutAt4096 := range []bool{false, true} {
+		kind := "4096-aligned/one-write"
+		if cutAt4096 {
+			kind = "4096-aligned/cut"
+		}
+		ep, ref := newConn(kind)
+		n := 14
+		if thorough {
+			n = 70
+		}
+		total := 0
+		for i := 0; i < n; i++ {
+			t := g.smallReq(gr, ep, pool, ht, ref)
+			k := []int{1, 2, 3, 0, 4095, 4094, 5}[i%7] // the next 4096-multiple lies k bytes behind this request's end
+			have := len(t.op.Req.encode())
+			want := ((total+have+k+4095)/4096)*4096 - k - total
+			for want < have {
+				want += 4096
+			}
+			if !padTo(&t.op.Req, want) {
+				want = have
+			}
+			total += len(t.op.Req.encode())
+		}
+		fence(ep, ref)
+		total, _ = streamLen(gr, ep)
+		plan := &segPlan{}
+		if cutAt4096 {
+			for c := 4096; c < total; c += 4096 {
+				plan.cuts = append(plan.cuts, c)
+				plan.pauses = append(plan.pauses, g.pause())
+			}
+		}
+		gr.segs[ep] = plan
+	}
+	// (d) large bodies spanning many reads, each followed by a request whose header is cut 1..3 bytes in
+	{
+		ep, ref := newConn("large-bodies")
+		sizes := []int{65536 + 7, 300000}
+		if thorough {
+			sizes = []int{65536, 65537, 262144 + 3, 1 << 20, 700001}
+		}
+		plan := &segPlan{}
+		total := 0
+		for i, sz := range sizes {
+			big := g.request("ok", 0, g.timeout())
+			b := make([]byte, sz)
+			g.rng.Read(b)
+			big.Buf = hx(b)
+			t := gr.add(ep, pool, ht, "plain", big)
+			t.op.Seg = ref
+			total += len(big.encode())
+			// a cut inside the body, and one 1..3 bytes into the next header
+			plan.cuts = append(plan.cuts, total-sz/2, total+1+i%3)
+			plan.pauses = append(plan.pauses, g.pause(), g.pause())
+			for j := 0; j < 3; j++ {
+				total += len(g.smallReq(gr, ep, pool, ht, ref).op.Req.encode())
+			}
+		}
+		fence(ep, ref)
+		gr.segs[ep] = plan
+	}
+	return gr
+}
+
+// ---------------------------------------------------------------------------------------------
 // running a group against a child
 
 func runGroup(c *child, gr *group) error {
@@ -787,10 +1020,28 @@ func runGroup(c *child, gr *group) error {
 				for _, t := range byEp[i] {
 					all = append(all, t.op.Req.encode()...)
 				}
-				e.tcp.SetWriteDeadline(time.Now().Add(20 * time.Second))
-				if _, err := e.tcp.Write(all); err != nil {
-					errs <- err
+				e.tcp.SetWriteDeadline(time.Now().Add(60 * time.Second))
+				plan := gr.segs[i]
+				if plan == nil {
+					if _, err := e.tcp.Write(all); err != nil {
+						errs <- err
+					}
+					return
 				}
+				// segmented: a write error means the server gave the connection up (what is then
+				// unanswered is judged by the oracle), not a harness failure
+				pos := 0
+				for k, cut := range plan.cuts {
+					if cut <= pos || cut >= len(all) {
+						continue
+					}
+					if _, err := e.tcp.Write(all[pos:cut]); err != nil {
+						return
+					}
+					pos = cut
+					time.Sleep(time.Duration(plan.pauses[k]) * time.Millisecond)
+				}
+				e.tcp.Write(all[pos:])
 				return
 			}
 			for k, t := range byEp[i] {
@@ -824,7 +1075,7 @@ func runGroup(c *child, gr *group) error {
 	for time.Now().Before(deadline) && !c.exited() {
 		missing := 0
 		for _, t := range gr.cases {
-			if t.twoWay() && count(t) == 0 {
+			if t.twoWay() && count(t) == 0 && !eps[t.ep].broken() {
 				missing++
 			}
 		}
@@ -847,7 +1098,7 @@ func runGroup(c *child, gr *group) error {
 		}
 		missing := 0
 		for _, t := range gr.cases {
-			if t.op.Scenario != "victim" && t.op.Req.Func != "tars_ping" && got[t.op.Req.ID]-seen[t.op.Req.ID] == 0 {
+			if !t.expiring() && t.op.Req.Func != "tars_ping" && got[t.op.Req.ID]-seen[t.op.Req.ID] == 0 && !eps[t.ep].broken() {
 				missing++
 			}
 		}
@@ -925,7 +1176,7 @@ func isTimeoutAnswer(p *packet) bool {
 func oracle(t *tcase, res *common.Result, modelText string) {
 	viol := func(class, locus, what string) {
 		res.Violate(common.Violation{Signature: "C10:" + class + ":" + locus, What: what,
-			Case: common.Case{Stream: "srvinvoke", Op: t.op, Model: modelText, Impl: t.implText()}})
+			Case: common.Case{Stream: "srvinvoke", Op: t.rop(), Model: modelText, Impl: t.implText()}})
 	}
 	r := t.op.Req
 	path := t.path()
@@ -954,7 +1205,7 @@ func oracle(t *tcase, res *common.Result, modelText string) {
 	if r.Func == "tars_ping" && len(t.inv) > 0 {
 		viol("ping-invoked", "Protocol.Invoke", "tars_ping reached the dispatcher")
 	}
-	if t.op.Scenario == "victim" {
+	if t.expiring() {
 		for _, iv := range t.inv {
 			if iv.StartTs-iv.RecvTs >= int64(r.Timeout)+expirySlack {
 				viol("executed-after-timeout", "Protocol.Invoke", fmt.Sprintf("request id %d with iTimeout %d ms was executed %d ms after it was received", r.ID, r.Timeout, iv.StartTs-iv.RecvTs))
@@ -1007,7 +1258,7 @@ func oracle(t *tcase, res *common.Result, modelText string) {
 		viol(class, locus, what+": got "+p.text())
 	}
 	switch {
-	case t.op.Scenario == "victim":
+	case t.expiring():
 		expired := true
 		for _, iv := range t.inv {
 			if iv.StartTs-iv.RecvTs < int64(r.Timeout)+expirySlack {
@@ -1096,13 +1347,13 @@ func judge(cases []*tcase, m *common.Model, res *common.Result) error {
 		}
 		_, _, _, ms := behaviour(t.op.Req.Func)
 		sub := 0
-		if t.op.Scenario == "victim" {
+		if t.expiring() {
 			sub = int(t.op.Req.Timeout) + 1000
 		}
 		refs[i].primary = len(lines)
 		lines = append(lines, t.modelLine(sub, ms))
 		switch {
-		case t.op.Scenario == "victim":
+		case t.expiring():
 			// the scenario may fail to make the timeout elapse (nothing guarantees scheduling): then the
 			// dispatcher itself saw start-recv below the timeout
 			missed := len(t.inv) > 0
@@ -1150,7 +1401,7 @@ func judge(cases []*tcase, m *common.Model, res *common.Result) error {
 		if t.op.Scenario == "spurious" {
 			res.Count("spurious/"+t.packets[0].text(), "spurious", false)
 			oracle(t, res, "")
-			res.Diverge(common.Case{Stream: "srvinvoke", Op: t.op, Model: "(no request)", Impl: t.packets[0].text()})
+			res.Diverge(common.Case{Stream: "srvinvoke", Op: t.rop(), Model: "(no request)", Impl: t.packets[0].text()})
 			continue
 		}
 		impl := t.implText()
@@ -1158,7 +1409,7 @@ func judge(cases []*tcase, m *common.Model, res *common.Result) error {
 		res.Count(classOf(t)+"/"+shapeOf(t), classOf(t), true)
 		res.TracesValidated++
 		if i%97 == 0 {
-			res.Sample(map[string]interface{}{"case": t.op, "model": model, "impl": impl})
+			res.Sample(map[string]interface{}{"case": t.rop(), "model": model, "impl": impl})
 		}
 		oracle(t, res, model)
 		if model == common.NoModel {
@@ -1172,9 +1423,11 @@ func judge(cases []*tcase, m *common.Model, res *common.Result) error {
 			if t.op.Scenario == "victim" {
 				res.Histogram["slip:queue-scenario-missed"]++
 				victimSlips++
+			} else if t.op.Scenario == "edge" {
+				res.Histogram["branch:timeout-1ms-not-expired"]++
 			} else {
 				res.Histogram["slip:handle-timeout-tie"]++
-				tieSlips = append(tieSlips, common.Case{Stream: "srvinvoke", Op: t.op, Model: model, Impl: impl,
+				tieSlips = append(tieSlips, common.Case{Stream: "srvinvoke", Op: t.rop(), Model: model, Impl: impl,
 					Note: "a fast request under a handle timeout was answered as if the handler had been over-long"})
 			}
 			continue
@@ -1182,7 +1435,7 @@ func judge(cases []*tcase, m *common.Model, res *common.Result) error {
 		if strings.HasPrefix(model, "bad-") {
 			return fmt.Errorf("model driver rejected %q: %s", lines[refs[i].primary], model)
 		}
-		res.Diverge(common.Case{Stream: "srvinvoke", Op: t.op, Model: model, Impl: impl})
+		res.Diverge(common.Case{Stream: "srvinvoke", Op: t.rop(), Model: model, Impl: impl})
 	}
 	return nil
 }
@@ -1233,7 +1486,7 @@ func branchOf(t *tcase, impl string) string {
 
 type config struct{ pool, ht int }
 
-func runConfig(scratch string, cf config, seed int64, n, rounds int, res *common.Result, mu *sync.Mutex, m *common.Model) error {
+func runConfig(scratch string, cf config, seed int64, tier string, n, rounds int, res *common.Result, mu *sync.Mutex, m *common.Model) error {
 	g := newGen(rand.New(rand.NewSource(seed*1000003 + int64(cf.pool)*7919 + int64(cf.ht))))
 	c, err := startChild(scratch, cf.pool, cf.ht)
 	if err != nil {
@@ -1245,6 +1498,7 @@ func runConfig(scratch string, cf config, seed int64, n, rounds int, res *common
 		groups = append(groups, queueGroup(g, cf.pool, cf.ht, rounds))
 	}
 	groups = append(groups, mainGroup(g, cf.pool, cf.ht, n, rounds))
+	groups = append(groups, segGroup(seed, tier, cf.pool, cf.ht))
 	for _, gr := range groups {
 		if err := runGroup(c, gr); err != nil {
 			return fmt.Errorf("config pool=%d ht=%d group %s: %v (child: %s)", cf.pool, cf.ht, gr.name, err, tail(c.out.String()))
@@ -1284,6 +1538,38 @@ func replay(o *common.Opts, scratch string, res *common.Result, m *common.Model)
 		return err
 	}
 	defer c.kill()
+	if op.Seg != nil {
+		// the whole connection is regenerated and replayed: what happens to one request of a byte stream
+		// depends on where the stream was cut before it
+		full := segGroup(op.Seg.Seed, op.Seg.Tier, op.Pool, op.HT)
+		gr := &group{name: "replay-segmented", segs: map[int]*segPlan{}}
+		ep := gr.addEp("tcp")
+		gr.segs[ep] = full.segs[op.Seg.Conn]
+		var the *tcase
+		for _, t := range full.cases {
+			if t.ep == op.Seg.Conn {
+				t.ep = ep
+				gr.cases = append(gr.cases, t)
+				if t.op.Req.ID == op.Req.ID {
+					the = t
+				}
+			}
+		}
+		if gr.segs[ep] == nil || len(gr.cases) == 0 {
+			return fmt.Errorf("segmented connection %d cannot be regenerated", op.Seg.Conn)
+		}
+		if err := runGroup(c, gr); err != nil {
+			return err
+		}
+		if err := judge(gr.cases, m, res); err != nil {
+			return err
+		}
+		fmt.Printf("connection %d (%s): %d requests, stream cut at %v\n", op.Seg.Conn, op.Seg.Kind, len(gr.cases), gr.segs[ep].cuts)
+		if the != nil {
+			fmt.Printf("request id %d: %s\n", op.Req.ID, the.implText())
+		}
+		return nil
+	}
 	g := newGen(rand.New(rand.NewSource(o.Seed)))
 	g.nextID = 1 << 20
 	g.special = nil
@@ -1365,7 +1651,7 @@ func main() {
 		wg.Add(1)
 		go func(cf config) {
 			defer wg.Done()
-			if err := runConfig(scratch, cf, o.Seed, n, rounds, res, &mu, m); err != nil {
+			if err := runConfig(scratch, cf, o.Seed, o.Tier, n, rounds, res, &mu, m); err != nil {
 				errc <- err
 			}
 		}(cf)
